@@ -365,7 +365,7 @@ func (e *Engine) callModular(fr *Frame, st *State, fc *FuncContract, name string
 	if fc.Trusted {
 		e.note("trusted contract: " + shortName(name))
 	}
-	if sig.Recv() != nil && !invoke && len(args) > 0 && args[0].K == KScalar {
+	if sig.Recv() != nil && !invoke && !fc.NilRecv && len(args) > 0 && args[0].K == KScalar {
 		if _, isPtr := under(sig.Recv().Type()).(*types.Pointer); isPtr {
 			e.oblige(st, "safety/nil", not(eq(args[0].T, "0")), pos, "method call on nil receiver", nil)
 		}
